@@ -413,6 +413,63 @@ def run(prop, spec, tier, scratch, known, vcheck):
                                        "fingerprint": "c08|%s|%s" % (fam, cls), "detail": "scope %s prefix %s delim %r: %s generates %s, specification %s; z3 witness %s" % (
                                            sc["name"], sc["prefix"], delim, target, rope, want, (witness or "").replace("\n", " ")[:200]),
                                        "case": {"delim": delim, "scope": sc, "target": target}, "smt": smt})
+    # ---- one recursive run (-r) over a program that includes another one declaring a scope of the
+    # SAME name with a different prefix: generator state must not leak from one file to the next ----
+    for ci, case in enumerate(cases(tier)):
+        if tier == "quick" and ci > 0:
+            break
+        delim = case["delim"]
+        rdir = os.path.join(scratch, "recursive%d" % ci)
+        os.makedirs(rdir)
+        pair = {"c08rbase": {"name": "Events", "prefix": "v1.{tenant}"}, "c08rmain": {"name": "Events", "prefix": "v2.{tenant}"}}
+        write_idl(os.path.join(rdir, "c08rbase.frugal"), "c08rbase", [pair["c08rbase"]])
+        write_idl(os.path.join(rdir, "c08rmain.frugal"), "c08rmain", [pair["c08rmain"]])
+        txt = open(os.path.join(rdir, "c08rmain.frugal")).read()
+        open(os.path.join(rdir, "c08rmain.frugal"), "w").write('include "c08rbase.frugal"\n' + txt)
+        for gen in ["java", "dart", "py", "py:asyncio", "py:tornado"]:
+            out = os.path.join(rdir, "out_" + gen.replace(":", "_"))
+            rc, msg = genpipe.run_frugal(exe, os.path.join(rdir, "c08rmain.frugal"), gen, out, delim, recursive=True)
+            if rc != 0:
+                inconclusive.append("compiler failed for %s (recursive pair) delim %r: %s" % (gen, delim, msg[-300:]))
+                continue
+            for pkg, sc in pair.items():
+                vs = prefix_vars(sc["prefix"])
+                want = spec_rope(sc, delim, "Created")
+
+                def findp(pattern):
+                    hits = []
+                    for dp, _, fs in os.walk(out):
+                        for f in fs:
+                            if re.search(pattern, f) and pkg in os.path.join(dp, f):
+                                hits.append(os.path.join(dp, f))
+                    return hits[0] if len(hits) == 1 else os.path.join(out, "<%d files match %s in %s>" % (len(hits), pattern, pkg))
+                if gen == "java":
+                    targets = {"java-publisher": ("java", findp(r"Publisher\.java$"), "publishCreated("), "java-subscriber": ("java", findp(r"Subscriber\.java$"), "subscribeCreated(")}
+                elif gen == "dart":
+                    targets = {"dart-publisher": ("dart", findp(r"_scope\.dart$"), "publishCreated("), "dart-subscriber": ("dart", findp(r"_scope\.dart$"), "subscribeCreated(")}
+                else:
+                    fam = "py" + gen[2:].replace(":", "-")
+                    targets = {fam + "-publisher": ("py", findp(r"_publisher\.py$"), "def _publish_Created(")}
+                    if gen != "py":
+                        targets[fam + "-subscriber"] = ("py", findp(r"_subscriber\.py$"), "def subscribe_Created(")
+                for target, (lang, path, mark) in targets.items():
+                    programs += 1
+                    try:
+                        rope = extract(open(path).read(), lang, vs, mark)
+                    except (OSError, ExtractError) as e:
+                        inconclusive.append("cannot extract the topic of %s for %s in the recursive pair: %s" % (target, pkg, e))
+                        continue
+                    eq, witness, smt = z3_equal(rope, want, vs)
+                    queries += 1
+                    if eq is None:
+                        inconclusive.append("z3 gave no answer for %s/%s (recursive pair): %s" % (target, pkg, witness[-200:]))
+                    elif not eq:
+                        fam = target.split("-")[0] if not target.startswith("py-") else "py"
+                        violations.append({"property": prop, "harness": "c08-extract", "kind": "topic", "label": "recursive-run-state-leak", "site": fam,
+                                           "fingerprint": "c08|%s|recursive-run-state-leak" % fam,
+                                           "detail": "recursive run, file %s.frugal scope %s prefix %s delim %r: %s generates %s, specification %s; z3 witness %s" % (
+                                               pkg, sc["name"], sc["prefix"], delim, target, rope, want, (witness or "").replace("\n", " ")[:200]),
+                                           "case": {"delim": delim, "scope": sc, "target": target, "file": pkg}, "smt": smt})
     # run the Go jobs (one gose process per generated package entry group)
     by_pkg = {}
     for j in go_jobs:
